@@ -225,6 +225,9 @@ func (g *G) maybeStall() {
 	// durations: mostly sub-poll, sometimes spanning polls/timeouts
 	table := []time.Duration{50 * time.Microsecond, time.Millisecond, 20 * time.Millisecond, 99 * time.Millisecond, 101 * time.Millisecond, 350 * time.Millisecond, 2 * time.Second, 7 * time.Second}
 	d := table[w.Tape.Draw(SSched, len(table))]
+	if w.Cfg.MaxStall > 0 && d > w.Cfg.MaxStall {
+		d = w.Cfg.MaxStall
+	}
 	w.Stats.Stalls++
 	g.rawSleep(d)
 }
